@@ -326,7 +326,15 @@ def render_unit(r: R, unit, modules):
         modules.append(nm)
     elif kind == "SMOD":
         nm = r.name("sm")
-        s = r.add(0, f"submodule ({modules[-1]}) {nm}")
+        # a second submodule of the same module descends from the first one: submodule (ancestor:parent) name
+        prev = getattr(r, "last_smod", {}).get(modules[-1])
+        head = f"submodule ({modules[-1]}{':' + prev if prev else ''}) {nm}"
+        if prev and r.spacing == 2:
+            head = head.replace(":", " : ")
+        s = r.add(0, head)
+        if not hasattr(r, "last_smod"):
+            r.last_smod = {}
+        r.last_smod[modules[-1]] = nm
         if ch:
             r.add(0, "contains")
             for k, c in ch:
